@@ -503,7 +503,16 @@ func iosOnlyRemarkMoves(stdout string) bool {
 	for _, s := range steps {
 		switch {
 		case strings.HasPrefix(s[0], "ip access-list resequence "), strings.HasPrefix(s[0], "ip access-list extended "):
-		case len(s) == 2 && strings.HasPrefix(s[0], "no ") && len(strings.Fields(s[1])) > 2 && strings.Fields(s[1])[1] == "remark":
+		case len(s) == 2 && strings.HasPrefix(s[0], "no ") && isNum(strings.TrimPrefix(s[0], "no ")) &&
+			len(strings.Fields(s[1])) > 2 && isNum(strings.Fields(s[1])[0]):
+			// A joined move of one line. It is only reached after the
+			// device was found equivalent to the target (same filter, rules
+			// of one permit/deny run in any order), so the line - a remark,
+			// or a rule that changes its place relative to remarks or to
+			// rules of its own run - was left where it was by the first
+			// script and is moved now, because remarks count to the
+			// preceding run and the runs look different after the first
+			// script.
 		default:
 			return false
 		}
